@@ -143,15 +143,16 @@ chk("C04", "fault_enumeration",
 
 chk("C05", "model_checking",
     "BuildDecode.tla is the builder-input machine (9 object kinds x serial forms x validity windows straddling the UTCTime/"
-    "GeneralizedTime boundaries x resource shapes x URI forms x every insertion order of <= 3 list items) plus the captured-layout "
+    "GeneralizedTime boundaries x resource shapes x URI forms x every sequence of <= 3 list items, duplicates included) plus the captured-layout "
     "discipline and, over X509Time's encoder model, the expected time tags/characters and minimal serial INTEGERs; TbsBuilder.tla is the "
-    "certificate builder as a state machine (TbsCert::new + 18 setters, SkiTracksKey, OneField). TLC enumerates every state; each is "
+    "certificate builder as a state machine (TbsCert::new + 18 setters, SkiTracksKey, OneField) and SobBuilder.tla the signed-object "
+    "builder (11 setters, the derived EE certificate, SidIsSki). TLC enumerates every state; each is "
     "replayed through the real builders with real RSA keys: build, encode, decode, validate, re-encode (bytes equal), every accessor of "
     "the built object and its decoded twin compared, DER forms compared with the model's, setter scripts compared field by field with "
     "the model's record.",
     "Value classes with fixed representatives; a fidelity property, so the specification contributes the case structure, the builder state "
     "machine and the expected DER forms rather than an interleaving argument.",
-    "TLA+ specs (BuildDecode over X509Time, TbsBuilder) model-checked by TLC; exhaustive spec->impl replay through the real builders/decoders",
+    "TLA+ specs (BuildDecode over X509Time, TbsBuilder, SobBuilder) model-checked by TLC; exhaustive spec->impl replay through the real builders/decoders",
     "DESIGN.md §3 C05")
 
 chk("C11", "model_checking",
@@ -160,9 +161,10 @@ chk("C11", "model_checking",
     "(TLC: Incremental, RoundTrip, AttrCoversPcdata for every value up to length 4/5 over an alphabet that contains the specials and "
     "entity look-alikes); CaXmlMsg.tla is the case machine (variant x list shape x optional fields x focus field x every focus string) "
     "plus the parser fault plans (34 mutation kinds x 5 positions). Every state is replayed: values through xml::encode::Writer "
-    "(bytes = Esc), messages through the public constructors -> XML -> independent well-formedness scanner -> library parser = equal, "
-    "mutated documents through all six parsers (no panic; accepted values stabilise under write/parse). Random messages are validated "
-    "by Trace_CaXml (every written attribute = Esc(value), well-formed, round trip).",
+    "(an independent scanner and the library's reader must get back the model's Read(Esc(value)); the written form itself may be any "
+    "correct escaping), messages through the public constructors -> XML -> independent well-formedness scanner -> library parser = "
+    "equal, mutated documents through all six parsers (no panic; accepted values stabilise under write/parse). Random messages are "
+    "validated by Trace_CaXml (every written attribute reads back as its value under the model's Read, well-formed, round trip).",
     "ASCII without C0 controls, whole-second times, non-empty objects, tags present; canned error texts only.",
     "TLA+ specs (CaXml, CaXmlEsc, CaXmlMsg) model-checked by TLC; exhaustive spec->impl replay with an independent XML scanner; impl->spec trace validation",
     "DESIGN.md §3 C11")
